@@ -120,8 +120,17 @@ VARIANTS = [
     ("C09", "neutral", "histogrammar/util.py", "            out = out and (self.expr == other.expr)\n\n        return out", "            return out and (self.expr == other.expr)\n\n        return out", "early return of the same conjunction"),
     ("C09", "mutant", "histogrammar/util.py", "        return (x > 0.0) == (y > 0.0)", "        return True", "+inf equals -inf"),
     ("C09", "neutral", "histogrammar/util.py", "        return (x > 0.0) == (y > 0.0)", "        return (x < 0.0) == (y < 0.0)", "sign test mirrored"),
+    ("C09", "neutral", "histogrammar/util.py",
+     "    if relativeTolerance > 0.0 and absoluteTolerance > 0.0:\n        return abs(x - y) <= max(relativeTolerance * max(abs(x), abs(y)), absoluteTolerance)\n    if relativeTolerance > 0.0:\n        return abs(x - y) <= relativeTolerance * max(abs(x), abs(y))\n    if absoluteTolerance > 0.0:\n        return abs(x - y) <= absoluteTolerance\n",
+     "    tolerance = max(relativeTolerance * max(abs(x), abs(y)), absoluteTolerance)\n    if tolerance > 0.0:\n        return abs(x - y) <= tolerance\n",
+     "the three tolerance branches merged into one bound (a switched-off tolerance contributes 0)"),
+    ("C09", "mutant", "histogrammar/util.py",
+     "    if relativeTolerance > 0.0 and absoluteTolerance > 0.0:\n        return abs(x - y) <= max(relativeTolerance * max(abs(x), abs(y)), absoluteTolerance)\n    if relativeTolerance > 0.0:\n        return abs(x - y) <= relativeTolerance * max(abs(x), abs(y))\n    if absoluteTolerance > 0.0:\n        return abs(x - y) <= absoluteTolerance\n",
+     "    tolerance = min(relativeTolerance * max(abs(x), abs(y)), absoluteTolerance)\n    if tolerance > 0.0 or absoluteTolerance > 0.0:\n        return abs(x - y) <= tolerance\n",
+     "merged bound that a zero tolerance takes part in"),
     ("C09", "neutral", "histogrammar/util.py", "    if math.isnan(x) and math.isnan(y):\n        return True", "    if math.isnan(y) and math.isnan(x):\n        return True", "operands of the NaN test swapped"),
     # ---------------- C10
+    ("C10", "mutant", P + "centrallybin.py", "    def __add__(self, other):\n        if not isinstance(other, CentrallyBin):\n            raise ContainerException(f\"cannot add {self.name} and {other.name}\")\n", "    def __add__(self, other):\n", "CentrallyBin.__add__ without its isinstance guard (Select forwards attributes)"),
     ("C10", "mutant", P + "bin.py", "            if self.high != other.high:\n                raise ContainerException(f\"cannot add Bins because high differs ({self.high} vs {other.high})\")\n            if len(self.values) != len(other.values):\n                raise ContainerException(\n                    f\"cannot add Bins because nubmer of values differs ({len(self.values)} vs {len(other.values)})\"\n                )\n            if len(self.values) == 0:\n                raise ContainerException(\"cannot add Bins because number of values is zero\")\n\n            out", "            if len(self.values) != len(other.values):\n                raise ContainerException(\n                    f\"cannot add Bins because nubmer of values differs ({len(self.values)} vs {len(other.values)})\"\n                )\n            if len(self.values) == 0:\n                raise ContainerException(\"cannot add Bins because number of values is zero\")\n\n            out", "high guard dropped from +"),
     ("C10", "mutant", P + "collection.py", "if self.size != other.size:", "if self.size < other.size:", "one-sided size guard"),
     ("C10", "mutant", P + "count.py", "    def __iadd__(self, other):\n        if isinstance(other, Count):\n            self.entries += other.entries\n            return self\n        raise ContainerException(f\"cannot add {self.name} and {other.name}\")", "    def __iadd__(self, other):\n        self.entries += other.entries\n        return self", "no type guard in +="),
